@@ -41,24 +41,54 @@ class _Mapping:
         return Rn, sarr([0, 0, 0])
 
 
+def _qmul(a, b):
+    aw, ax, ay, az = a
+    bw, bx, by, bz = b
+    return [aw * bw - ax * bx - ay * by - az * bz,
+            aw * bx + ax * bw + ay * bz - az * by,
+            aw * by - ax * bz + ay * bw + az * bx,
+            aw * bz + ax * by - ay * bx + az * bw]
+
+
 class RowanStub:
+    """rowan by its definitions (exact quaternion algebra).  ``rowan.random.rand`` is part of the environment:
+    it returns the next entry of ``ctx.random_quats`` (harness-chosen rational unit quaternions) - any unit
+    quaternion is a possible return value of the real function."""
+
     mapping = _Mapping
 
     class random:
         @staticmethod
-        def rand(n=1):
-            raise core.Abort("rowan.random.rand reached (miniball retry path)")
+        def rand(*args):
+            qs = getattr(core.CTX, "random_quats", None)
+            if not qs:
+                raise core.Abort("rowan.random.rand reached (miniball retry path) without an environment model")
+            i = getattr(core.CTX, "random_calls", 0)
+            core.CTX.random_calls = i + 1
+            return sarr([K(x) for x in qs[i % len(qs)]])
 
     @staticmethod
     def rotate(q, v):
-        q = [float(x) for x in _np.asarray(q).ravel()]
-        if q == [1.0, 0.0, 0.0, 0.0]:
-            return sarr(v)
-        raise core.Abort("rowan.rotate with a non-identity quaternion")
+        qa = sarr(q, copy=False).view(_np.ndarray)
+        if qa.ndim != 1:
+            if qa.shape[:-1] != (1,):
+                raise core.Abort("rowan.rotate with an array of quaternions")
+            qa = qa.reshape(4)
+        qq = [Sym._co(core.force(x)) for x in qa]
+        qc = [qq[0], -qq[1], -qq[2], -qq[3]]
+        va = sarr(v, copy=False).view(_np.ndarray)
+        flat = va.reshape(-1, 3)
+        out = _np.empty(flat.shape, dtype=object)
+        for i, row in enumerate(flat):
+            r = _qmul(qq, _qmul([K(0), row[0], row[1], row[2]], qc))
+            out[i] = r[1:]
+        return out.reshape(va.shape).view(SArr)
 
     @staticmethod
     def conjugate(q):
-        return q
+        c = sarr(q)  # a copy, like the library
+        c[..., 1:] *= -1
+        return c
 
 
 # ----------------------------------------------------------------------------- qhull
@@ -374,6 +404,13 @@ class MiniballStub:
         f = getattr(core.CTX, "miniball", None)
         if f is not None:
             return f(points)
+        # environment model: the library may fail with LinAlgError (its linear solves are unstable for cocircular
+        # points); the harness chooses how many consecutive calls fail on this path
+        nfail = getattr(core.CTX, "miniball_failures", 0)
+        ncall = getattr(core.CTX, "miniball_calls", 0)
+        core.CTX.miniball_calls = ncall + 1
+        if ncall < nfail:
+            raise _np.linalg.LinAlgError("singular matrix (environment model)")
         P = []
         for row in sarr(points, copy=False).view(_np.ndarray):
             r = []
